@@ -33,6 +33,8 @@ class Register(Operand):
     @property
     def cstruct(self):
         self._assert_types()
+        if not 0 <= self.index < 2**encoding.REG_INDEX_BITS:
+            raise ValueError(f"register index of {self} cannot be encoded")
         return encoding.Register(self.name.value, self.index)
 
     def __bytes__(self):
@@ -57,7 +59,10 @@ class Address(Operand):
     @property
     def cstruct(self):
         self._assert_types()
-        return encoding.Address(self.address)
+        cstruct = encoding.Address(self.address)
+        if cstruct.address != self.address:
+            raise ValueError(f"address {self.address} cannot be encoded")
+        return cstruct
 
     def __bytes__(self):
         return bytes(self.cstruct)
